@@ -168,6 +168,35 @@ class ClModel:
                 elif short in SH:
                     x, y = val(a[0]), val(a[1])
                     vals[r] = T.shift(SH[short], T.width(x), x, y)     # Cranelift: amount taken modulo the width
+                elif short.endswith("_imm") and (short[:-4] in BIN or short[:-4] in SH or short == "irsub_imm"):
+                    # InstBuilder `<op>_imm(x, Imm64)`: the immediate is the operand at x's width
+                    x = val(a[0])
+                    w = T.width(x)
+                    y = val(a[1])
+                    y = T.trunc(w, y) if T.width(y) > w else (T.sext(w, y) if T.width(y) < w else y)
+                    base = short[:-4]
+                    if base in BIN:
+                        vals[r] = T.op(BIN[base], w, x, y)
+                    elif base in SH:
+                        vals[r] = T.shift(SH[base], w, x, y)
+                    else:
+                        vals[r] = T.op("sub", w, y, x)
+                elif short == "bnot":
+                    x = val(a[0])
+                    vals[r] = T.op("xor", T.width(x), x, T.K(T.width(x), (1 << T.width(x)) - 1))
+                elif short in ("uload8", "uload16", "uload32", "sload8", "sload16", "sload32"):
+                    w = int(short[5:])
+                    addr = T.op("add", 64, val(a[2]), T.sext(64, val(a[3])))
+                    wide = ty(a[0])
+                    ld = ("load", w, addr)
+                    vals[r] = T.zext(wide, ld) if short[0] == "u" else T.sext(wide, ld)
+                    res["order"].append(("load", w, addr))
+                elif short in ("istore8", "istore16", "istore32"):
+                    w = int(short[6:])
+                    v0 = T.trunc(w, val(a[1]))
+                    addr = T.op("add", 64, val(a[2]), T.sext(64, val(a[3])))
+                    res["stores"].append((w, addr, v0))
+                    res["order"].append(("store", w, addr))
                 elif short == "ineg":
                     x = val(a[0])
                     vals[r] = T.neg(T.width(x), x)
